@@ -62,7 +62,7 @@ def check(ctx):
                 ctx.fail("oracle", key, f"table {name} (N={N}) order {order}, no cutoff: {cnt} index tuples with equality pattern {pat} are eliminated (forced to zero)",
                          replay={"tp": tp.tolist(), "order": order, "pattern": list(pat), "count": cnt}, has_input=True)
     # ---- dense reference
-    cells = [("mono_P", (1, 1, 1)), ("tri2_P1", (1, 1, 1)), ("tri1", (2, 1, 1)), ("hcp", (1, 1, 1)), ("tri3_P1", (1, 1, 1)), ("tri2_obtuse", (1, 1, 1))]
+    cells = [("mono_P", (1, 1, 1)), ("tri2_P1", (1, 1, 1)), ("tri1", (2, 1, 1)), ("hcp", (1, 1, 1)), ("tri3_P1", (1, 1, 1)), ("tri2_obtuse", (1, 1, 1)), ("ortho1", (2, 1, 1)), ("hex1", (1, 1, 2))]
     if not ctx.quick:
         cells += [("bcc_conv", (1, 1, 1)), ("tri2_Pm1", (1, 1, 1)), ("ortho_C", (1, 1, 1)), ("si_prim", (1, 1, 1)), ("tri1", (3, 1, 1)), ("nacl_prim", (1, 1, 1)), ("rhombo2", (1, 1, 1)), ("sheared", (1, 1, 1)), ("mono_C", (1, 1, 1)),
                   ("mono_P", (2, 1, 1)), ("tri2_P1", (1, 2, 1)), ("p3_general", (1, 1, 1)), ("tri1", (4, 1, 1)), ("tri1", (2, 2, 1))]   # N = 4: order 3 through the dense reference
@@ -92,20 +92,35 @@ def check(ctx):
         for order in (2, 3, 4):
             if order == 4 and N > 2 or order == 3 and N > (3 if ctx.quick else 4):
                 continue
-            for cut in cuts:
+            # the same group handed over explicitly: rotation-major listing and a shuffled one (identity first); no cutoff
+            rots_, trans_ = np.asarray(ops["rotations"]), np.asarray(ops["translations"])
+            listings = [("spglib", None, c_) for c_ in cuts]
+            n_pure = sum(1 for r_ in rots_ if (r_ == np.eye(3, dtype=int)).all())
+            if n_pure > 1 and order <= 3 and len(rots_) > n_pure and (rots_[0] == np.eye(3, dtype=int)).all() and np.abs(trans_[0]).max() < 1e-9:
+                keys_ = [tuple(r_.ravel()) for r_ in rots_]
+                first_ = {}
+                for i_, k_ in enumerate(keys_):
+                    first_.setdefault(k_, i_)
+                rm_ = sorted(range(len(rots_)), key=lambda i_: (first_[keys_[i_]], i_))
+                sh_ = [0] + list(1 + np.random.default_rng(ctx.seed + 11).permutation(len(rots_) - 1))
+                listings += [("explicit-rotation-major", {"rotations": rots_[rm_], "translations": trans_[rm_]}, None),
+                             ("explicit-shuffled", {"rotations": rots_[sh_], "translations": trans_[sh_]}, None)]
+            if order == 4 and ctx.quick:
+                listings = listings[:2]          # no cutoff and one shell boundary (the thorough tier runs them all)
+            for lname, sgops, cut in listings:
                 near = None if cut is None else dist < cut
                 try:
-                    o = Symfc(at, cutoff=None if cut is None else {order: cut}).compute_basis_set(orders=[order])
+                    o = Symfc(at, spacegroup_operations=sgops, cutoff=None if cut is None else {order: cut}).compute_basis_set(orders=[order])
                 except (IndexError, ValueError):
                     ctx.count("implementation-raised-on-degenerate-cutoff")
                     continue
                 b = o.basis_set[order]
                 F = np.asarray(b.compression_matrix @ b.basis_set)
                 Q = projector_onto_admissible(N, order, G, near=near)
-                ctx.case({"cell": sc["name"], "order": order, "cutoff": cut, "ref_dim": int(Q.shape[1]), "impl_dim": int(F.shape[1])}, nontrivial=Q.shape[1] >= 1)
+                ctx.case({"cell": sc["name"], "order": order, "cutoff": cut, "operations": lname, "ref_dim": int(Q.shape[1]), "impl_dim": int(F.shape[1])}, nontrivial=Q.shape[1] >= 1)
                 ctx.count(f"reference-order{order}")
                 rep = {"cell": sc["name"], "lattice": sc["lattice"].tolist(), "positions": sc["positions"].tolist(), "numbers": [int(x) for x in sc["numbers"]],
-                       "order": order, "cutoff": cut, "ref_dim": int(Q.shape[1]), "impl_dim": int(F.shape[1])}
+                       "order": order, "cutoff": cut, "operations": lname, "ref_dim": int(Q.shape[1]), "impl_dim": int(F.shape[1])}
                 resid = float(np.abs(F - Q @ (Q.T @ F)).max()) if F.shape[1] else 0.0
                 if resid > 1e-7:
                     ctx.fail("oracle", f"C04/oracle/not-admissible/order{order}", f"{sc['name']} order {order} cutoff={cut}: a basis vector lies outside the admissible space (residual {resid:.2e})", replay=rep, has_input=True)
